@@ -33,7 +33,7 @@ EmbA == St(<<Fld("none", "A", "A", K("i8")), Fld("omit", "B", "B", K("str"))>>)
 EmbM == St(<<Fld("none", "A", "A", K("mjp")), Fld("ren", "B", "b", K("f64"))>>)
 
 \* the dynamic types an interface value may hold
-Dyn == {K("int"), K("f64"), K("str"), K("bool"), K("mjv"), K("mjp"), K("mtp"), [k |-> "ptr", e |-> K("mjp")], [k |-> "slice", e |-> K("int")],
+Dyn == {K("int"), K("f64"), K("str"), K("bool"), K("mjv"), K("mjp"), K("mtp"), K("mtd"), K("mta"), [k |-> "ptr", e |-> K("mjp")], [k |-> "slice", e |-> K("int")],
         [k |-> "map", key |-> "str", e |-> K("mjp")], St(<<Fld("omit", "A", "A", K("int")), Fld("none", "B", "B", K("mjp"))>>)}
 
 Types ==
